@@ -1213,8 +1213,14 @@ class NamespaceManager(dict):
                 #  check if the URI can be compacted
                 for namespace in self.values():
                     if str_value.startswith(namespace.uri):
+                        local_part = str_value[len(namespace.uri) :]
+                        if not namespace.prefix and ":" in local_part:
+                            # an unprefixed name containing a colon could not be
+                            # told apart from a prefixed name (or a URI) when
+                            # printed; try the other namespaces instead
+                            continue
                         #  create a QName with the namespace
-                        return namespace[str_value[len(namespace.uri) :]]
+                        return namespace[local_part]
         elif self._default:
             # create and return an identifier in the default namespace
             return self._default[qname]
